@@ -919,6 +919,25 @@ pub fn gen(prop: &str, seed: u64, index: u64, _tier: Tier) -> Case {
             if prng.chance(1, 8) {
                 link_an_output(&mut prng, &mut p, &a, &mut ops);
             }
+            if prng.chance(1, 6) {
+                // the process works in another directory than the base directory, and that
+                // directory holds files at the same relative paths as the project's outputs
+                p.add_dir("mirror");
+                for s in &a.sources {
+                    p.add_file(&format!("mirror/{}", s.out), B::s("same relative path, another directory\n"));
+                    for t in &s.temps {
+                        if prng.chance(1, 2) {
+                            p.add_file(&format!("mirror/{t}"), B::s("same relative path, another directory\n"));
+                        }
+                    }
+                }
+                for op in ops.iter_mut() {
+                    if let Op::Run { cfg, .. } = op {
+                        cfg.cwd = Some("mirror".into());
+                    }
+                }
+                params.insert("cwd".into(), "mirror".into());
+            }
             variant = "mixed".into();
             project = p;
         }
